@@ -670,3 +670,21 @@ Proof.
   destruct (l_create pend s c) as [s' h] eqn:E. cbn [fst snd] in *.
   inversion Hout; subst e. assert (fst h = c) as Hh by (unfold l_create in E; inversion E; reflexivity). lia.
 Qed.
+
+(* the "equivalently" clause of C17: a never-used index is taken only when it
+   is the next one and every lower index holds an entity that is alive or
+   awaiting maintain (no Free cell and no hole below it) *)
+Theorem life_fresh_only_when_full s i : LInv s -> valid_choice s i = true -> cell s i = Never ->
+  i = used s /\ forall j, j < i -> occupied (cell s j) = true.
+Proof.
+  intros HI Hv En. destruct (valid_choice_cases _ _ Hv) as [[g E]|[_ [-> Hnf]]]; [congruence|].
+  split; [reflexivity|]. intros j Hj. pose proof (has_free_false _ HI Hnf j) as Hf.
+  assert (cell s j <> Never) as Hn by (apply (J_below _ HI); exact Hj).
+  destruct (cell s j); cbn in *; congruence.
+Qed.
+
+(* conversely a creation that does not take a never-used index reuses a Free one *)
+Theorem life_reuse_is_free s i : valid_choice s i = true -> cell s i <> Never -> is_free (cell s i) = true.
+Proof.
+  intros Hv Hn. destruct (valid_choice_cases _ _ Hv) as [[g E]|[E _]]; [rewrite E; reflexivity|congruence].
+Qed.
